@@ -305,6 +305,17 @@ func (x *Exec) specIdx(env *SpecEnv, e Expr) Term {
 }
 
 func (x *Exec) specIdent(env *SpecEnv, name string) SpecVal {
+	// captured variable (closure): the content of its cell is authoritative
+	// (a register holding an earlier load of it would be stale)
+	if cell, ok := env.vars["&"+name]; ok {
+		if _, shadow := env.vars[name]; !shadow {
+			el := derefType(cell.Ty)
+			if el != nil && !isStructType(el) {
+				arr := x.heapGet(env.st, x.cellArr(el), SArr(SInt, x.sortOf(el)))
+				return SpecVal{T: Select(arr, cell.T), Ty: el}
+			}
+		}
+	}
 	if env.frame != nil && env.depth == 0 {
 		// inside the body (loop invariants): the current value of a source
 		// variable shadows the parameter's entry value
@@ -1027,6 +1038,26 @@ func (x *Exec) specCall(env *SpecEnv, c ECall) SpecVal {
 	case "seqof":
 		v := x.spec(env, c.Args[0])
 		return x.sliceToSeq(env.st, v)
+	case "apply":
+		// apply(f, args...): application of a pure-role function value
+		fv := x.spec(env, c.Args[0])
+		if fv.Ty == nil {
+			unsupported("apply: untyped function value %s", c.Args[0].exprString())
+		}
+		role := x.pureRoleName(fv.Ty)
+		if role == "" {
+			unsupported("apply: %s is not of a declared pure role type", c.Args[0].exprString())
+		}
+		sig, ok := fv.Ty.Underlying().(*types.Signature)
+		if !ok || sig.Results().Len() != 1 {
+			unsupported("apply: bad signature")
+		}
+		var ats []Term
+		for _, a := range c.Args[1:] {
+			ats = append(ats, x.specTerm(env, a))
+		}
+		f := x.pureFun(role, ats, x.sortOf(sig.Results().At(0).Type()))
+		return SpecVal{T: f(append([]Term{fv.T}, ats...)...), Ty: sig.Results().At(0).Type()}
 	case "waitkind":
 		// waitkind("take"): is this path verified for / called by a waiter of that kind?
 		cfg := env.cfg
